@@ -18,6 +18,8 @@ type TimeV struct {
 	nsec *smt.Term
 	loc  *LocV
 	ymd  *[3]*smt.Term
+	// ymdIf: the civil date is ymd whenever this condition holds (nil = unconditionally)
+	ymdIf *smt.Term
 }
 
 type LocV struct {
@@ -93,19 +95,133 @@ func (ex *Exec) daysFromCivil(y, m, d *smt.Term) *smt.Term {
 	return b.Sub(b.Add(b.Mul(era, ex.k(146097)), doe), ex.k(719468))
 }
 
+// civilFromDays is the inverse of daysFromCivil. It is encoded *by constraint*: fresh (y, m, d)
+// with daysFromCivil(y, m, d) = days and (y, m, d) a valid civil date. Every day number has exactly
+// one valid civil date, so the constraint is definitional (always satisfiable, unique solution);
+// solvers handle it far better than the forward division chain.
 func (ex *Exec) civilFromDays(days *smt.Term) (y, m, d *smt.Term) {
+	return ex.civilFromDaysUnless(days, nil)
+}
+
+// civilFromDaysUnless: as civilFromDays, but the defining constraint is only imposed when skip is false
+// (the caller uses another value when skip holds).
+func (ex *Exec) civilFromDaysUnless(days *smt.Term, skip *smt.Term) (y, m, d *smt.Term) {
+	if c, ok := days.ConstInt(); ok {
+		cy, cm, cd := civilFromDaysConcrete(c.Int64())
+		return ex.k(cy), ex.k(cm), ex.k(cd)
+	}
+	if got, ok := ex.civilMemo[days.ID]; ok && skip == nil {
+		return got[0], got[1], got[2]
+	}
+	if days.Lo != nil && days.Hi != nil && days.Lo.IsInt64() && days.Hi.IsInt64() && days.Hi.Int64()-days.Lo.Int64() <= 1200 {
+		// small range: decide the (year, month) the day falls in; the day of month is then linear
+		lo, hi := days.Lo.Int64(), days.Hi.Int64()
+		type seg struct{ y, m, start, end int64 }
+		var segs []seg
+		cy, cm, _ := civilFromDaysConcrete(lo)
+		for {
+			start := daysFromCivilConcrete(cy, cm, 1)
+			ny, nm := cy, cm+1
+			if nm > 12 {
+				ny, nm = cy+1, 1
+			}
+			end := daysFromCivilConcrete(ny, nm, 1) - 1
+			segs = append(segs, seg{cy, cm, start, end})
+			if end >= hi {
+				break
+			}
+			cy, cm = ny, nm
+		}
+		b := ex.b
+		alts := make([]*smt.Term, len(segs))
+		for i, sg := range segs {
+			alts[i] = b.And(b.Le(ex.k(sg.start), days), b.Le(days, ex.k(sg.end)))
+		}
+		var pick int
+		if skip != nil {
+			// under skip the value is unused: do not fork on it
+			if cb, ok := skip.ConstBool(); ok && cb {
+				return ex.k(1), ex.k(1), ex.k(1)
+			}
+			pick = ex.decide("civil-month", alts)
+		} else {
+			pick = ex.decide("civil-month", alts)
+		}
+		sg := segs[pick]
+		return ex.k(sg.y), ex.k(sg.m), b.Add(b.Sub(days, ex.k(sg.start)), ex.k(1))
+	}
+	ex.civilSeq++
+	mk := func(n string, lo, hi int64) *smt.Term {
+		v := ex.b.Var(fmt.Sprintf("civil.%s!%d", n, ex.civilSeq), smt.SInt, big.NewInt(lo), big.NewInt(hi))
+		if ex.solver != nil {
+			ex.solver.AssertRange(v)
+		}
+		ex.extraVars = append(ex.extraVars, v)
+		return v
+	}
+	y, m, d = mk("y", -1000000, 1000000), mk("m", 1, 12), mk("d", 1, 31)
 	b := ex.b
-	z := b.Add(days, ex.k(719468))
-	era := b.Div(z, ex.k(146097))
-	doe := b.Sub(z, b.Mul(era, ex.k(146097)))
-	yoe := b.Div(b.Sub(b.Add(b.Sub(doe, b.Div(doe, ex.k(1460))), b.Div(doe, ex.k(36524))), b.Div(doe, ex.k(146096))), ex.k(365))
-	y0 := b.Add(yoe, b.Mul(era, ex.k(400)))
-	doy := b.Sub(doe, b.Sub(b.Add(b.Mul(ex.k(365), yoe), b.Div(yoe, ex.k(4))), b.Div(yoe, ex.k(100))))
-	mp := b.Div(b.Add(b.Mul(ex.k(5), doy), ex.k(2)), ex.k(153))
-	d = b.Add(b.Sub(doy, b.Div(b.Add(b.Mul(ex.k(153), mp), ex.k(2)), ex.k(5))), ex.k(1))
-	m = b.Ite(b.Lt(mp, ex.k(10)), b.Add(mp, ex.k(3)), b.Sub(mp, ex.k(9)))
-	y = b.Ite(b.Le(m, ex.k(2)), b.Add(y0, ex.k(1)), y0)
+	def := b.And(b.Eq(ex.daysFromCivil(y, m, d), days), b.Le(d, ex.daysIn(y, m)))
+	if skip != nil {
+		def = b.Or(skip, def)
+	}
+	ex.assume(def)
+	if skip != nil {
+		return // conditional definitions are not shared
+	}
+	if ex.civilMemo == nil {
+		ex.civilMemo = map[int][3]*smt.Term{}
+	}
+	ex.civilMemo[days.ID] = [3]*smt.Term{y, m, d}
 	return
+}
+
+func daysFromCivilConcrete(y, m, d int64) int64 {
+	fd := func(a, b int64) int64 {
+		q := a / b
+		if a%b != 0 && (a < 0) != (b < 0) {
+			q--
+		}
+		return q
+	}
+	if m <= 2 {
+		y--
+	}
+	era := fd(y, 400)
+	yoe := y - era*400
+	mp := m - 3
+	if m <= 2 {
+		mp = m + 9
+	}
+	doy := (153*mp+2)/5 + d - 1
+	doe := yoe*365 + yoe/4 - yoe/100 + doy
+	return era*146097 + doe - 719468
+}
+
+func civilFromDaysConcrete(z int64) (int64, int64, int64) {
+	fd := func(a, b int64) int64 {
+		q := a / b
+		if a%b != 0 && (a < 0) != (b < 0) {
+			q--
+		}
+		return q
+	}
+	z += 719468
+	era := fd(z, 146097)
+	doe := z - era*146097
+	yoe := (doe - doe/1460 + doe/36524 - doe/146096) / 365
+	y := yoe + era*400
+	doy := doe - (365*yoe + yoe/4 - yoe/100)
+	mp := (5*doy + 2) / 153
+	d := doy - (153*mp+2)/5 + 1
+	m := mp + 3
+	if mp >= 10 {
+		m = mp - 9
+	}
+	if m <= 2 {
+		y++
+	}
+	return y, m, d
 }
 
 func (ex *Exec) isLeap(y *smt.Term) *smt.Term {
@@ -125,10 +241,17 @@ func (ex *Exec) daysIn(y, m *smt.Term) *smt.Term {
 func (ex *Exec) localSec(t TimeV) *smt.Term { return ex.b.Add(t.sec, ex.locOffset(t.loc)) }
 
 func (ex *Exec) timeYMD(t TimeV) (y, m, d *smt.Term) {
-	if t.ymd != nil {
+	if t.ymd != nil && t.ymdIf == nil {
 		return t.ymd[0], t.ymd[1], t.ymd[2]
 	}
 	days := ex.b.Div(ex.localSec(t), ex.k(86400))
+	if t.ymd != nil {
+		// the given fields are the civil date when they were in range; otherwise (normalised
+		// overflow such as Feb 31) the inverse calendar function decides
+		iy, im, id := ex.civilFromDaysUnless(days, t.ymdIf)
+		b := ex.b
+		return b.Ite(t.ymdIf, t.ymd[0], iy), b.Ite(t.ymdIf, t.ymd[1], im), b.Ite(t.ymdIf, t.ymd[2], id)
+	}
 	return ex.civilFromDays(days)
 }
 
@@ -139,8 +262,23 @@ func (ex *Exec) timeHMS(t TimeV) (h, mi, s *smt.Term) {
 }
 
 // mkDate is time.Date with Go's normalisation of out-of-range fields.
+// narrow case-splits a term with a small known range into a constant (calendar functions are
+// piecewise linear per (year, month); splitting there keeps every solver query linear).
+func (ex *Exec) narrow(kind string, t *smt.Term, maxWidth int64) *smt.Term {
+	if t.IsConst() || t.Lo == nil || t.Hi == nil || !t.Lo.IsInt64() || !t.Hi.IsInt64() {
+		return t
+	}
+	lo, hi := t.Lo.Int64(), t.Hi.Int64()
+	if hi-lo+1 > maxWidth {
+		return t
+	}
+	return ex.k(ex.concretize(kind, t, lo, hi))
+}
+
 func (ex *Exec) mkDate(y, m, d, h, mi, s, ns *smt.Term, loc *LocV) TimeV {
 	b := ex.b
+	y = ex.narrow("year", y, 16)
+	m = ex.narrow("month", m, 64)
 	// normalise month into [1,12]
 	m0 := b.Sub(m, ex.k(1))
 	y1 := b.Add(y, b.Div(m0, ex.k(12)))
@@ -150,16 +288,18 @@ func (ex *Exec) mkDate(y, m, d, h, mi, s, ns *smt.Term, loc *LocV) TimeV {
 	secs = b.Add(secs, b.Div(ns, ex.k(1000000000)))
 	nsec := b.Mod(ns, ex.k(1000000000))
 	t := TimeV{sec: b.Sub(secs, ex.locOffset(loc)), nsec: nsec, loc: loc}
-	// cache the civil date when the fields are provably normalised
-	valid := b.And(b.Le(ex.k(1), m), b.Le(m, ex.k(12)), b.Le(ex.k(1), d), b.Le(d, ex.daysIn(y, m)),
+	// the given fields are the civil date of the result whenever they are in range (no overflow
+	// normalisation); y1/m1 are already normalised
+	valid := b.And(b.Le(ex.k(1), d), b.Le(d, ex.daysIn(y1, m1)),
 		b.Le(ex.k(0), h), b.Lt(h, ex.k(24)), b.Le(ex.k(0), mi), b.Lt(mi, ex.k(60)), b.Le(ex.k(0), s), b.Lt(s, ex.k(60)),
 		b.Le(ex.k(0), ns), b.Lt(ns, ex.k(1000000000)))
 	if cb, ok := valid.ConstBool(); ok {
 		if cb {
-			t.ymd = &[3]*smt.Term{y, m, d}
+			t.ymd = &[3]*smt.Term{y1, m1, d}
 		}
-	} else if ex.checkSat(b.Not(valid)) == smt.Unsat {
-		t.ymd = &[3]*smt.Term{y, m, d}
+	} else {
+		t.ymd = &[3]*smt.Term{y1, m1, d}
+		t.ymdIf = valid
 	}
 	return t
 }
@@ -405,7 +545,7 @@ func init() {
 		t := ex.asTime(args[0])
 		r := TimeV{sec: t.sec, nsec: t.nsec, loc: locUTC}
 		if t.loc.kind == "utc" {
-			r.ymd = t.ymd
+			r.ymd, r.ymdIf = t.ymd, t.ymdIf
 		}
 		return r
 	})
